@@ -44,6 +44,12 @@ impl Future for EventFut {
 struct Gate { open: rt::sync::Mutex<bool>, cv: rt::sync::Condvar }
 
 /// Harness-made input stream (built on std primitives only: nothing here may block across a controlled context switch)
+/// Identity of the running thread: the controlled runtime's task id, or a hash of the OS thread id on real threads
+#[cfg(not(desync_verif_real))]
+fn my_task() -> usize { desync::verif::me() }
+#[cfg(desync_verif_real)]
+fn my_task() -> usize { use std::hash::{Hash, Hasher}; let mut h = std::collections::hash_map::DefaultHasher::new(); std::thread::current().id().hash(&mut h); h.finish() as usize }
+
 pub struct StreamCore {
     st: StdMutex<(std::collections::VecDeque<u64>, bool, Option<std::task::Waker>)>,
     pub pushed: AtomicU64, pub released: AtomicBool, pub processed: StdMutex<Vec<u64>>, pub received: StdMutex<Vec<u64>>, pub ended_seen: AtomicBool,
@@ -86,6 +92,8 @@ pub struct Ctx {
     latch_cv: rt::sync::Condvar,
     pub fail_fast: bool,
     pub touch_yield: bool,
+    pub threads: StdMutex<Vec<Option<rt::thread::Thread>>>,
+    pub in_try: StdMutex<std::collections::HashMap<usize, usize>>,
     pub panics_started: AtomicUsize,
     pub panics_caught: AtomicUsize,
     pub panic_base: usize,
@@ -122,6 +130,9 @@ impl Ctx {
     /// An operation's closure/future starts running with access to the payload
     fn op_start(&self, oid: usize, p: &mut Payload) {
         let t = self.tick();
+        // a thread inside try_sync runs its own closure or nothing: running somebody else's operation means it is draining the queue
+        let tr = { let g = self.in_try.lock().unwrap(); g.get(&my_task()).copied() };
+        if let Some(t0) = tr { if t0 != oid && self.with_op(oid, |r| r.obj) == self.with_op(t0, |r| r.obj) { self.error("C09", format!("try_sync {} ran operation {} on its caller's thread (it took over the queue instead of returning Busy)", t0, oid)); } }
         let (runs, obj) = self.with_op(oid, |r| { r.runs += 1; r.start = t; (r.runs, r.obj) });
         if runs != 1 { self.error("C03", format!("operation {} ran {} times", oid, runs)); }
         if p.mon.id != obj { self.error("C14", format!("operation {} got the payload of object {}", oid, p.mon.id)); }
@@ -239,6 +250,7 @@ pub fn exec_op(ctx: &Arc<Ctx>, op: &Op, caller: usize, nested: bool, local: &mut
         Op::Resume => { if let Some(r) = local.resumer.take() { let t = ctx.tick(); if let Some(o) = local.susp_op.take() { ctx.with_op(o, |x| x.end = t); } r.resume(); } return; }
         Op::DropResumer => { if let Some(r) = local.resumer.take() { let t = ctx.tick(); if let Some(o) = local.susp_op.take() { ctx.with_op(o, |x| x.end = t); } drop(r); } return; }
         Op::WaitEv(e) => { block_on(EventFut { ctx: ctx.clone(), e: *e }, None); return; }
+        Op::Noise(c) => { let t = { let g = ctx.threads.lock().unwrap(); g.get(*c).cloned().flatten() }; if let Some(t) = t { t.unpark(); } return; }
         Op::AwaitUnwind => {
             // every started panic has been caught either by a caller's top level or at the top of a pool thread
             loop {
@@ -325,7 +337,10 @@ pub fn exec_op(ctx: &Arc<Ctx>, op: &Op, caller: usize, nested: bool, local: &mut
             check_ok_token(ctx, oid, "C04", Some(got));
         }
         Op::TrySync(_, body) => {
+            let me = my_task();
+            ctx.in_try.lock().unwrap().insert(me, oid);
             let got = obj.try_sync(|p| { run_body(&c2, oid, body, p, caller); oid });
+            ctx.in_try.lock().unwrap().remove(&me);
             match got {
                 Ok(v) => { ctx.with_op(oid, |r| r.accepted = true); check_ok_token(ctx, oid, "C09", Some(v)); }
                 Err(_) => { ctx.with_op(oid, |r| r.busy = true); }
@@ -409,7 +424,11 @@ fn exec_op_q(ctx: &Arc<Ctx>, op: &Op, caller: usize, nested: bool, local: &mut L
             check_ok_token(ctx, oid, "C04", Some(got));
         }
         Op::TrySync(_, body) => {
-            match sch::try_sync(&qo.queue, || { let d = d; run_body(&c2, oid, body, unsafe { &mut *d.0 }, caller); oid }) {
+            let me = my_task();
+            ctx.in_try.lock().unwrap().insert(me, oid);
+            let r = sch::try_sync(&qo.queue, || { let d = d; run_body(&c2, oid, body, unsafe { &mut *d.0 }, caller); oid });
+            ctx.in_try.lock().unwrap().remove(&me);
+            match r {
                 Ok(v) => { ctx.with_op(oid, |r| r.accepted = true); check_ok_token(ctx, oid, "C09", Some(v)); }
                 Err(_) => { ctx.with_op(oid, |r| r.busy = true); }
             }
@@ -555,6 +574,7 @@ pub fn make_ctx(prog: &Program, fail_fast: bool, touch_yield: bool) -> Arc<Ctx> 
         streams: (0..prog.nstreams()).map(|_| Arc::new(StreamCore { st: StdMutex::new((Default::default(), false, None)), pushed: AtomicU64::new(0), released: AtomicBool::new(false), processed: StdMutex::new(vec![]), received: StdMutex::new(vec![]), ended_seen: AtomicBool::new(false), polls_after_gone: AtomicUsize::new(0) })).collect(),
         clock, ops: StdMutex::new(vec![]), errors: StdMutex::new(vec![]),
         pending: AtomicUsize::new(0), latch: rt::sync::Mutex::new(()), latch_cv: rt::sync::Condvar::new(), fail_fast, touch_yield,
+        threads: StdMutex::new(vec![None; prog.callers.len()]), in_try: StdMutex::new(Default::default()),
         panics_started: AtomicUsize::new(0), panics_caught: AtomicUsize::new(0), panic_base: desync::verif::thread::PANICKED_THREADS.load(SeqCst),
     })
 }
@@ -563,6 +583,7 @@ pub fn make_ctx(prog: &Program, fail_fast: bool, touch_yield: bool) -> Arc<Ctx> 
 /// any other panic on a healthy object is a failure of the run
 pub fn exec_top(ctx: &Arc<Ctx>, op: &Op, caller: usize, local: &mut Local) {
     use std::panic::{catch_unwind, AssertUnwindSafe};
+    { let mut t = ctx.threads.lock().unwrap(); if t[caller].is_none() { t[caller] = Some(rt::thread::current()); } }
     let r = catch_unwind(AssertUnwindSafe(|| exec_op(ctx, op, caller, false, local)));
     if let Err(e) = r {
         let msg = if let Some(s) = e.downcast_ref::<String>() { s.clone() } else if let Some(s) = e.downcast_ref::<&str>() { s.to_string() } else { String::new() };
